@@ -17,3 +17,95 @@ package ack
 //@   modifies *, #ackCalls, #handed, #lastHanded, #lastHandedHasCb, #wire, #lastWireTo, #lastWirePkt, #inserts, #lastInsertPkt, #lastInsertPrefix
 //@   ensures #ackCalls == old(#ackCalls) + 1
 //@   ensures #handed >= old(#handed) && #handed <= old(#handed) + 1
+
+// ---- the in-flight table itself (C04) -----------------------------------------------------------
+// key of an entry: a function of (prefix, identifier), injective because the identifier is the text after the last '/'
+//@ fun key_of(prefix string, id int32) gotomic.Hashable
+//@ axiom key_injective: forall p1 string, i1 int32, p2 string, i2 int32 :: {key_of(p1, i1), key_of(p2, i2)} key_of(p1, i1) == key_of(p2, i2) ==> p1 == p2 && i1 == i2
+//@ trusted func hashKey(prefix string, id int32) (k gotomic.Hashable)
+//@   ensures k == key_of(prefix, id)
+//@   pure
+
+// timeout list through its interface: #tmo = keys with a pending timeout
+//@ func (expiration.List).Insert(l expiration.List, id interface{}, deadline time.Time)
+//@   modifies #tmo
+//@   ensures forall x Iface :: #tmo[x] <==> (old(#tmo)[x] || x == id)
+//@ func (expiration.List).Delete(l expiration.List, id interface{}, deadline time.Time) (r bool)
+//@   modifies #tmo
+//@   ensures forall x Iface :: #tmo[x] <==> (old(#tmo)[x] && x != id)
+
+// the callback registered with an entry: its one outcome
+//@ assume-call message.callback(expired bool, stored packet.Packet, received packet.Packet)
+//@   modifies *, #cbCalls, #lastCbExpired, #lastCbStored, #lastCbReceived, #handed, #lastHanded, #lastHandedHasCb, #wire, #lastWireTo, #lastWirePkt, #inserts, #lastInsertPkt, #lastInsertPrefix, #pending, #tab, #tabv, #tmo
+//@   ensures #cbCalls == old(#cbCalls) + 1 && #lastCbExpired == expired && #lastCbStored == stored && #lastCbReceived == received
+
+//@ pred ack_id(pkt packet.Packet) := typeis(pkt, *packet.PubAck) || typeis(pkt, *packet.PubRec) || typeis(pkt, *packet.PubRel) || typeis(pkt, *packet.PubComp)
+
+// C04: push registers exactly one new key, or rejects a duplicate without touching anything
+//@ func (*queue).push(k gotomic.Hashable, msg message) (err error)
+//@   requires q != nil && q.msg != nil && q.timeouts != nil
+//@   ensures err == nil <==> !old(#tab)[k]
+//@   ensures err != nil ==> #tab == old(#tab) && #tabv == old(#tabv) && #tmo == old(#tmo)
+//@   ensures err == nil ==> (forall x Iface :: #tab[x] <==> (old(#tab)[x] || x == k)) && #tabv[k] == asiface(msg) && (forall x Iface :: #tmo[x] <==> (old(#tmo)[x] || x == k))
+//@   ensures #cbCalls == old(#cbCalls)
+//@   ensures forall x Iface :: x != k ==> #tabv[x] == old(#tabv)[x]
+
+//@ fun pkt_id(p packet.Packet) int32
+//@ func (Ackers).GetMessageId(a Ackers) (r int32)
+//@   ensures r == pkt_id(a)
+//@   pure
+//@ trusted func (packet.Packet).Type(p packet.Packet) (t byte)
+//@   pure
+//@ pred wf_queue(q *queue) := q != nil && q.msg != nil && q.timeouts != nil
+//@       && (forall x Iface :: #tab[x] ==> typeis(#tabv[x], message))
+//@ immutable queue.msg, timeouts
+
+// C04: an acknowledgement resolves the entry registered under (prefix, identifier) when, and only when, it is of the packet
+// type that entry waits for: then exactly that entry and its timeout are removed and its callback runs once with
+// expired == false. An unknown identifier or a packet of another type changes nothing.
+//@ func (*queue).Ack(prefix string, pkt packet.Packet) (err error)
+//@   requires wf_queue(q)
+//@   ensures #cbCalls <= old(#cbCalls) + 1
+//@   ensures ack_id(pkt) && !old(#tab)[key_of(prefix, pkt_id(pkt))] ==> err != nil && #tab == old(#tab) && #tmo == old(#tmo) && #cbCalls == old(#cbCalls)
+//@   ensures ack_id(pkt) && old(#tab)[key_of(prefix, pkt_id(pkt))] && unbox(old(#tabv)[key_of(prefix, pkt_id(pkt))], message).state != pkt.Type()
+//@            ==> err != nil && #tab == old(#tab) && #tmo == old(#tmo) && #cbCalls == old(#cbCalls)
+//@   ensures ack_id(pkt) && old(#tab)[key_of(prefix, pkt_id(pkt))] && unbox(old(#tabv)[key_of(prefix, pkt_id(pkt))], message).state == pkt.Type()
+//@            ==> err == nil && #cbCalls == old(#cbCalls) + 1
+//@ callsite (*queue).Ack -> message.callback(expired bool, stored packet.Packet, received packet.Packet)
+//@   requires !expired && received == pkt && stored == unbox(old(#tabv)[key_of(prefix, pkt_id(pkt))], message).pkt
+//@   requires old(#tab)[key_of(prefix, pkt_id(pkt))] && unbox(old(#tabv)[key_of(prefix, pkt_id(pkt))], message).state == pkt.Type()
+//@   requires forall x Iface :: #tab[x] <==> (old(#tab)[x] && x != key_of(prefix, pkt_id(pkt)))
+//@   requires forall x Iface :: #tmo[x] <==> (old(#tmo)[x] && x != key_of(prefix, pkt_id(pkt)))
+
+// what an entry waits for, by the packet it was registered with
+//@ fun expected(pkt packet.Packet) int := if typeis(pkt, *packet.PubRec) then 6 else if typeis(pkt, *packet.PubRel) then 7
+//@       else if typeis(pkt, *packet.Publish) && unbox(pkt, *packet.Publish).Header.Qos == 1 then 4 else 5
+//@ fun reg_id(pkt packet.Packet) int32 := if typeis(pkt, *packet.PubRec) then unbox(pkt, *packet.PubRec).MessageId else if typeis(pkt, *packet.PubRel) then unbox(pkt, *packet.PubRel).MessageId
+//@       else unbox(pkt, *packet.Publish).MessageId
+
+// C04: registering an exchange adds exactly one entry keyed by (prefix, identifier), waiting for the packet type that answers
+// pkt, with its timeout; a duplicate identifier (or an unusable packet) is rejected and nothing changes. No callback runs.
+//@ func (*queue).Insert(prefix string, pkt packet.Packet, deadline time.Time, callback Callback) (err error)
+//@   requires wf_queue(q)
+//@   requires typeis(pkt, *packet.PubRec) ==> unbox(pkt, *packet.PubRec) != nil
+//@   requires typeis(pkt, *packet.PubRel) ==> unbox(pkt, *packet.PubRel) != nil
+//@   requires typeis(pkt, *packet.Publish) ==> unbox(pkt, *packet.Publish) != nil && unbox(pkt, *packet.Publish).Header != nil
+//@   ensures wf_queue(q) && #cbCalls == old(#cbCalls)
+//@   ensures err != nil ==> #tab == old(#tab) && #tabv == old(#tabv) && #tmo == old(#tmo)
+//@   ensures err == nil ==> !old(#tab)[key_of(prefix, reg_id(pkt))] && (forall x Iface :: #tab[x] <==> (old(#tab)[x] || x == key_of(prefix, reg_id(pkt))))
+//@   ensures err == nil ==> (forall x Iface :: #tmo[x] <==> (old(#tmo)[x] || x == key_of(prefix, reg_id(pkt))))
+//@   ensures err == nil ==> unbox(#tabv[key_of(prefix, reg_id(pkt))], message).state == expected(pkt) && unbox(#tabv[key_of(prefix, reg_id(pkt))], message).pkt == pkt
+//@   ensures err == nil ==> (forall x Iface :: x != key_of(prefix, reg_id(pkt)) ==> #tabv[x] == old(#tabv)[x])
+//@   ensures old(#tab)[key_of(prefix, reg_id(pkt))] && (typeis(pkt, *packet.PubRec) || typeis(pkt, *packet.PubRel) || typeis(pkt, *packet.Publish)) && reg_id(pkt) != 0 ==> err != nil
+
+// expiry sweep: every key the timeout list reports is removed from the table and, if it was still there, its callback runs with
+// expired == true
+//@ func (expiration.List).Expire(l expiration.List, now time.Time) (out []interface{})
+//@   modifies #tmo
+//@   ensures forall i int :: {out[i]} 0 <= i && i < len(out) ==> typeis(out[i], gotomic.StringKey)
+//@ func (*queue).Expire(now time.Time)
+//@   requires wf_queue(q)
+//@ loop (*queue).Expire#1
+//@   invariant -1 <= rangeindex && rangeindex < 1152921504606846976 && q != nil && q.msg != nil && q.timeouts != nil
+//@ callsite (*queue).Expire -> message.callback(expired bool, stored packet.Packet, received packet.Packet)
+//@   requires expired && received == nil && !#tab[asiface(key)]
